@@ -14,7 +14,7 @@ from .ctx import Raised
 
 MAX_ORDER, MAX_NUMEL, MAX_RANK, POOL = 6, 20000, 24, 10
 STEP_TIMEOUT = 20.0
-VIEWS = ['plain', 'slice', 't', 'conj', 'sum', 'to_ttm', 'detach', 'clone-of-view']
+VIEWS = ['plain', 'slice', 't', 'conj', 'sum', 'to_ttm', 'detach', 'clone-of-view', 'buffer']
 
 
 class Walker:
@@ -77,6 +77,13 @@ class Walker:
             r = c.lib('to_ttm', lambda t: t.to_ttm(), base(M, R, self.dt, vals, self.g))
         elif view == 'detach':
             r = c.lib('detach', lambda t: t.detach(), base(N, R, self.dt, vals, self.g, M=M))
+        elif view == 'buffer':
+            # all cores are views into one flat buffer (uniform interior structure half of the time: equal shapes and strides, different offsets)
+            if self.rng.random() < 0.5 and d >= 3:
+                R = [1] + [R[1]] * (d - 1) + [1]
+                N = [N[0]] * d
+                M = [M[0]] * d if M else None
+            r = self.tt.TT(gens.buffer_views(gens.make_cores(N, R, self.dt, vals, self.g, M=M)))
         elif view == 'clone-of-view':
             r = c.lib('conj', lambda t: t.conj(), gens.make_tt(N, R, self.dt, vals, self.g, M=M))
             if isinstance(r, self.tt.TT):
